@@ -125,11 +125,6 @@ def is_not_empty(v):
     return v is not sh.EMPTY
 
 
-_is_not_finite = np.frompyfunc(lambda v: isinstance(
-    v, (float, np.floating)
-) and not np.isfinite(v), 1, 1)
-
-
 def wrap_impure_func(func):
     def wrapper(compiling, *args, **kwargs):
         return sh.NONE if compiling else func(*args, **kwargs)
@@ -147,7 +142,7 @@ def wrap_func(func, ranges=False):
                 return np.asarray([[Error.errors['#NUM!']]], object)
             if isinstance(res, np.ndarray) and res.dtype.kind in 'fO':
                 # Non-finite elements of an array are #NUM! too.
-                b = _is_not_finite(res).astype(bool)
+                b = _compile_func(_is_not_finite)(res).astype(bool)
                 if b.any():
                     res = res.astype(object).view(res.__class__)
                     res[b] = Error.errors['#NUM!']
@@ -226,6 +221,10 @@ def _to_number(number):
         return float(number)
     except (ValueError, TypeError):
         return np.nan
+
+
+def _is_not_finite(v):
+    return isinstance(v, (float, np.floating)) and not np.isfinite(v)
 
 
 @functools.lru_cache(None)
